@@ -98,12 +98,12 @@ def selftest():
 def run(ctx):
     selftest()
     cli = runner.build_cli()
-    n = ctx.pick(80, 5000)
-    results = e3.run_cases(ctx, cli, ["core", "text", "keys"], n, "c09", [("props.c09", "analyze")])
+    n = ctx.pick(50, 4000)
+    results = e3.run_cases(ctx, cli, ["core", "text", "keys", "rt", "rt_text"], n, "c09", [("props.c09", "analyze")])
     # near-miss corpus: single-fault mutants (pylib/isomut.py). Normally rejected, hence not judged; whenever the
     # compiler does accept one, the operations it generated are validated like any other. The `id`-argument mutant is
     # left out: its acceptance is the listed C16 known finding (the undefined argument then shows in the operation).
-    mres = e3.run_cases(ctx, cli, ["core", "keys"], ctx.pick(120, 4000), "c09m", [("props.c09", "analyze")],
+    mres = e3.run_cases(ctx, cli, ["core", "keys"], ctx.pick(60, 4000), "c09m", [("props.c09", "analyze")],
                         with_checked_in=False, mutate=True, mutate_exclude=("undefined-argument-named-id",))
     accepted_mutants = sum(1 for r in mres if r["ok"])
     results = results + mres
